@@ -7,7 +7,10 @@ table, the hook event log and probe requests are compared with the new configura
 shapes: a client that keeps ONE connection and sends request after request on it across the reload
 (the application logs every request it is entered for), a pool of several dozen workers reloaded
 again and again (every old worker leaves at the same moment), and a second HUP with a changed file
-that arrives while the first reload is still forking (slow pre_fork hook).
+that arrives while the first reload is still forking (slow pre_fork hook).  Pool-full shape (run_pool_full):
+one worker of a concurrent class whose worker_connections (1-3) places are all taken by requests the
+application has been entered for (held at a gate), further clients connected behind them, then the HUP;
+the requests are released once the old worker has given up the listening socket.
 """
 import json
 import os
@@ -23,7 +26,8 @@ LARGE_POOL = int(os.environ.get("C10_LARGE_POOL", "40"))
 LARGE_POOL_HUPS = int(os.environ.get("C10_LARGE_POOL_HUPS", "8"))
 RULE = ("scenario = (worker class, HUP timing vector incl. two HUPs 50 ms apart, sequence of (workers, GEN) configurations, "
         "client mix of short and 0.4-1.2 s requests from 8 concurrent clients, optionally one client reusing a single keep-alive "
-        "connection, two pools of 40 workers reloaded 8 times in a row, a HUP landing while the previous reload forks); distinct = scenario "
+        "connection, two pools of 40 workers reloaded 8 times in a row, a HUP landing while the previous reload forks, a HUP while the single gevent / eventlet / gthread worker holds worker_connections (1-3) "
+        "requests inside the application and more clients wait behind them); distinct = scenario "
         "tuple; non-trivial = at least one request overlapping a HUP (measured)")
 
 
@@ -391,6 +395,245 @@ def run_scenario(run, e4, sc):
         srv.cleanup()
 
 
+def holds_listener(e4, pid, inodes):
+    """Does the process still have one of these listening sockets open? (a dead process holds nothing)"""
+    return bool(e4.alive(pid) and (master_socket_inodes(pid) & set(inodes)))
+
+
+def run_pool_full(run, e4, sc):
+    """The single worker of a concurrent class has as many requests inside the application as it may hold connections
+    (worker_connections 1-3; optionally one of the places is taken by an idle kept-alive connection), further clients have
+    connected behind them (some have sent a request, some nothing yet) - then the HUP arrives.  The requests wait at a gate of
+    the harness application until the old worker has demonstrably begun to stop (it no longer holds the listening socket) and
+    some more time has passed; only then are they released.  Judged: every request the application was entered for before
+    the HUP gets its complete response from the old worker; nobody is refused; the old worker leaves, the new pool serves the
+    new configuration.  The clients that were only waiting are counted, not judged (a connection that was accepted but not
+    read is the territory of accepted-connection-dropped-at-reload)."""
+    v = []
+    info = {}
+    wc = sc["class"]
+    nconn = sc["worker_connections"]
+    (w0, gen0), (nw, gen1) = sc["configs"]
+    graceful = 40
+    settings = {"graceful_timeout": graceful, "timeout": 60, "raw_env": ["GEN=%d" % gen0], "worker_connections": nconn,
+                "keepalive": 20}
+    # gunicorn's threaded worker counts a connection from accept() on and stops polling once it holds worker_connections of
+    # them: the last place can only be taken by a connection that is accepted and not read (the first of the waiting clients)
+    n_entered = nconn - (1 if sc.get("idle_keepalive") else 0) - (1 if wc == "gthread" else 0)
+    if wc == "gthread":
+        settings["threads"] = n_entered + sc.get("spare_threads", 0)
+    srv = e4.Server("c10pf", worker_class=wc, workers=w0, settings=settings, bind=sc["bind"])
+    lag = e4.LagProbe()
+    lag.start()
+    socks = []
+    threads = []
+    released = False
+    tags = ["pf%d" % i for i in range(n_entered)]
+    try:
+        srv.start()
+        w = srv.wait_workers(w0, 25)
+        if not w or not srv.wait_listening(5):
+            return v, "server did not boot: %s" % srv.stderr()[-300:], info
+        old = w[0]
+        ino0 = listener_inodes(srv)
+        mino0 = master_socket_inodes(srv.master_pid) & ino0
+        if not mino0:
+            return v, "could not identify the master's listening socket inode", info
+        if not holds_listener(e4, old, mino0):
+            return v, "the worker does not hold the listening socket before the reload (observation not possible)", info
+        # ---- fill the worker -----------------------------------------------------------------------
+        if sc.get("idle_keepalive"):
+            try:
+                ks = e4.connect(srv.addr, 10)
+            except OSError as e:
+                return v, "could not connect for the idle kept-alive connection: %r" % e, info
+            socks.append(ks)
+            r = e4.request(srv.addr, "/pid", sock=ks, close=False, timeout=30)
+            head = r["data"].split(b"\r\n\r\n")[0].lower()
+            if r["outcome"] != "ok" or b"connection: close" in head:
+                return v, "the connection that should stay idle and kept alive was not kept (%s)" % r["outcome"], info
+        results = {}
+
+        def gated(tag):
+            results[tag] = e4.request(srv.addr, "/gate/%s" % tag, timeout=150)
+        for tag in tags:
+            t = threading.Thread(target=gated, args=(tag,), daemon=True)
+            t.start()
+            threads.append(t)
+        for tag in tags:
+            pid = srv.wait_phase("entered " + tag, 30)
+            if pid != old:
+                return v, "the application was not entered for every pool-filling request (%s: %s)" % (tag, pid), info
+        # ---- further clients behind the full pool ---------------------------------------------------
+        waiting = {}
+
+        def waiter(i):
+            waiting[i] = e4.request(srv.addr, "/pid", timeout=150)
+        t_conn = []
+        for i, kind in enumerate(sc["waiting"]):
+            if kind == "silent":
+                try:
+                    socks.append(e4.connect(srv.addr, 10))
+                    t_conn.append(time.monotonic())
+                except OSError as e:
+                    v.append(("connection-refused-during-reload", "a client connecting behind a full %s worker (worker_connections %d) "
+                              "before the HUP was refused: %r" % (wc, nconn, e)))
+            else:
+                t = threading.Thread(target=waiter, args=(i,), daemon=True)
+                t.start()
+                threads.append(t)
+        time.sleep(sc["hup_delays"][0])
+        if not e4.alive(old) or any(t for t in threads[:len(tags)] if not t.is_alive()):
+            return v, "a pool-filling request ended before the HUP", info
+        # ---- reload --------------------------------------------------------------------------------
+        srv.workers = nw
+        srv.write_conf(raw_env=["GEN=%d" % gen1])
+        t_hup = time.monotonic()
+        srv.signal(signal.SIGHUP)
+        # the new pool is forked (hook events, same clock) ...
+        t0 = time.monotonic()
+        forked = []
+        while time.monotonic() - t0 < 40 and e4.alive(srv.master_pid):
+            forked = [e for e in srv.events() if e["kind"] == "post_fork" and e["t"] > t_hup]
+            if len(forked) >= nw:
+                break
+            time.sleep(0.03)
+        # ... and the old worker has begun to stop: it gave up the listening socket (or is gone)
+        t0 = time.monotonic()
+        stopping = False
+        while time.monotonic() - t0 < 40:
+            if not holds_listener(e4, old, mino0):
+                stopping = True
+                break
+            time.sleep(0.03)
+        t_stop_seen = time.monotonic()
+        time.sleep(sc["hold"])
+        # ---- let the requests finish ----------------------------------------------------------------
+        for tag in tags:
+            srv.release(tag)
+        released = True
+        t_rel = time.monotonic()
+        for s in socks:
+            try:
+                s.close()
+            except OSError:
+                pass
+        for t in threads:
+            t.join(160)
+        maxlag = lag.max_lag(since=t_hup)
+        info["max_lag"] = round(maxlag, 3)
+        info["hup_to_new_pool_forked"] = round(max([e["t"] for e in forked] or [t_hup]) - t_hup, 2)
+        info["hup_to_old_worker_stopping"] = round(t_stop_seen - t_hup, 2)
+        errlog = srv.error_log()
+        crashed = "Exception in worker process" in errlog
+        # ---- the requests the application had been entered for ----------------------------------------
+        entered = {m[8:]: (t, pid) for (t, pid, m) in srv.phases() if m.startswith("entered ")}
+        answered = 0
+        for tag in tags:
+            r = results.get(tag)
+            body = e4.body_of(r["data"]) if r else b""
+            if r and r["outcome"] == "ok" and e4.status_of(r["data"]) == 200 and body == b"pid=%d done=%s|END" % (old, tag.encode()):
+                answered += 1
+                continue
+            if r and r["outcome"] == "timeout" and maxlag > 1.0:
+                return v, "scheduling lag %.1f s while a released request was awaited" % maxlag, info
+            v.append(("entered-request-not-answered-at-reload/" + wc,
+                      "request %s had been read and the application entered for it (worker %d, %.2f s before the HUP) when the reload came; "
+                      "the worker's %d connection places were all taken and %d more clients had connected (%s); outcome: %s, %d bytes %r "
+                      "%.2f s after the HUP (released %.2f s after the HUP; old worker seen stopping %.2f s after it); 'Exception in worker "
+                      "process' in the error log: %s; exit reported: %s" % (
+                          tag, old, t_hup - entered[tag][0], nconn, len(sc["waiting"]), ",".join(sc["waiting"]), r and r["outcome"],
+                          len(r["data"]) if r else 0, (r["data"][:80] if r else b""), (r["t_done"] - t_hup) if r else -1, t_rel - t_hup,
+                          t_stop_seen - t_hup, crashed,
+                          sorted(set(ln.split("] ", 2)[-1].rstrip(".") for ln in errlog.splitlines()
+                                     if "(pid:%d) exited" % old in ln or "(pid:%d) was sent" % old in ln))[:2])))
+        info["entered_requests"] = len(tags)
+        info["entered_requests_answered_by_old_worker"] = answered
+        info["overlapping_a_hup"] = len(tags)
+        run.count("requests", len(tags) + len(waiting))
+        run.count("requests_overlapping_hup", len(tags))
+        # ---- the clients that were waiting: nobody refused, nothing cut; what they got is only counted -----
+        outc = {}
+        for i, r in sorted(waiting.items()):
+            outc[r["outcome"]] = outc.get(r["outcome"], 0) + 1
+            if r["outcome"] in ("refused", "error"):
+                v.append(("connection-refused-during-reload", "a client connecting behind a full %s worker (worker_connections %d) before "
+                          "the HUP: %s %s" % (wc, nconn, r["outcome"], r.get("err"))))
+            elif r["outcome"] == "truncated" or (r["outcome"] in ("reset", "timeout") and r["data"]):
+                v.append(("response-cut-during-reload", "a client waiting behind a full %s worker at the HUP got a cut response: %r" % (
+                    wc, r["data"][:100])))
+            elif r["outcome"] == "ok":
+                if e4.status_of(r["data"]) != 200 or not e4.body_of(r["data"]).endswith(b"|END"):
+                    v.append(("malformed-response-during-reload", "%r" % r["data"][:120]))
+                run.count("pool_full_waiting_clients_answered")
+            else:
+                run.count("pool_full_waiting_clients_closed_without_bytes/" + wc)
+        info["waiting_clients"] = outc
+        # ---- listener, pool, new configuration ----------------------------------------------------------
+        if not e4.alive(srv.master_pid):
+            v.append(("master-died-during-reload", srv.stderr()[-300:]))
+            return v, None, info
+        mino1 = master_socket_inodes(srv.master_pid) & listener_inodes(srv)
+        if not (mino0 & mino1):
+            v.append(("listening-socket-replaced", "master's listening socket inode changed across HUP: %s -> %s" % (
+                sorted(mino0), sorted(mino1))))
+        else:
+            run.count("listener_inode_unchanged_checks")
+        if len(forked) < nw:
+            return v, "the new pool was not forked within 40 s of the HUP", info
+        if not stopping:
+            # nothing of this scenario can be said about a worker that never began to stop; whether it is retired at all is
+            # judged below (and in every other scenario)
+            info["old_worker_never_seen_stopping"] = True
+        t0 = time.monotonic()
+        while time.monotonic() - t0 < 30 and e4.alive(old):
+            time.sleep(0.05)
+        live = wait_replaced(e4, srv, [old], nw, 20) or srv.worker_pids()
+        info["final_workers"] = len(live)
+        if old in live:
+            v.append(("old-generation-worker-survives", "worker %d was forked before the HUP and is still alive %.1f s after it and %.1f s "
+                      "after its last request was released" % (old, time.monotonic() - t_hup, time.monotonic() - t_rel)))
+        else:
+            run.count("all_workers_new_checks")
+        if len(live) != nw:
+            v.append(("pool-size-wrong-after-reload", "%d live workers, configuration says %d" % (len(live), nw)))
+        gens_seen = set()
+        for _ in range(4):
+            r = e4.request(srv.addr, "/pid", timeout=30)
+            if r["outcome"] != "ok":
+                v.append(("probe-after-reload-failed", r["outcome"]))
+                break
+            gens_seen.add(e4.body_of(r["data"]).decode("latin-1").split("gen=")[1].split()[0])
+        info["gens_seen"] = sorted(gens_seen)
+        if gens_seen and gens_seen != {str(gen1)}:
+            v.append(("old-configuration-still-served", "responses after the reload report GEN %s, configured %d" % (sorted(gens_seen), gen1)))
+        elif gens_seen:
+            run.count("new_generation_served_checks")
+        if not stopping:
+            return v, "the old worker was never seen giving up the listening socket", info
+        if t_rel - t_hup > graceful / 2.0:
+            return v, "the requests were released only %.1f s after the HUP (graceful_timeout %d)" % (t_rel - t_hup, graceful), info
+        if not v:
+            run.count("pool_full_at_hup_checks")
+            run.count("pool_full_at_hup/" + wc)
+            run.count("pool_full_entered_requests_answered_by_old_worker", answered)
+        return v, None, info
+    finally:
+        if not released:
+            for tag in tags:
+                try:
+                    srv.release(tag)
+                except OSError:
+                    pass
+        for s in socks:
+            try:
+                s.close()
+            except OSError:
+                pass
+        lag.stop_flag = True
+        srv.cleanup()
+
+
 def scenarios(tier, seed):
     rng = rng_for(seed, "c10")
     out = []
@@ -472,10 +715,25 @@ def scenarios(tier, seed):
             out.append({"class": wc, "configs": [(2, 1)] + [(r4.randint(1, 3), g + 2) for g in range(n)],
                         "hup_delays": [r4.choice([0.5, 0.8])] + [r4.choice([0.3, 1.2])] * (n - 1), "clients": 4,
                         "bind": r4.choice(["tcp", "unix"]), "kind": "relative-conf-chdir", "conf_ref": ref})
+        # the worker's connection places (worker_connections 1-3) are all taken by requests the application has entered, further
+        # clients have connected behind them, then the HUP: every concurrent worker class, one worker (so that the pool that is
+        # full is known), requests held at a gate until the old worker has begun to stop
+        r5 = rng_for(seed, "c10-pool-full", rep)
+        for wc in ("eventlet", "gevent", "gthread"):
+            nconn = r5.randint(2 if wc == "gthread" else 1, 3)
+            out.append({"class": wc, "configs": [(1, 1), (r5.randint(1, 2), 2)], "hup_delays": [r5.choice([0.3, 0.5])],
+                        "bind": r5.choice(["tcp", "unix"]), "kind": "pool-full", "worker_connections": nconn,
+                        "waiting": r5.choice([["silent"], ["request"], ["silent", "request"], ["request", "silent", "request"]]),
+                        "idle_keepalive": bool(nconn >= (3 if wc == "gthread" else 2) and r5.random() < 0.3), "hold": r5.choice([1.0, 1.5, 2.0]),
+                        "spare_threads": r5.choice([0, 0, 1])})
     for i, sc in enumerate(out):
         sc["seed"] = seed
         sc["idx"] = i
     return out
+
+
+def run_any(run, e4, sc):
+    return (run_pool_full if sc.get("kind") == "pool-full" else run_scenario)(run, e4, sc)
 
 
 def shard(sh):
@@ -484,12 +742,13 @@ def shard(sh):
     sc = sh["scenario"]
     reason = None
     for attempt in range(3):
-        v, reason, info = run_scenario(run, e4, sc)
+        v, reason, info = run_any(run, e4, sc)
         if reason is None or v:
             break
         run.count("retries_after_inconclusive")
     run.case(json.dumps({k: sc.get(k) for k in ("class", "configs", "hup_delays", "bind", "kind", "pre_signals", "keepalive_clients",
-                                                 "slow_prefork", "conf_ref", "threads")}, sort_keys=True),
+                                                 "slow_prefork", "conf_ref", "threads", "worker_connections", "waiting", "idle_keepalive")},
+                        sort_keys=True),
              nontrivial=info.get("overlapping_a_hup", 0) > 0)
     run.count("scenarios")
     run.count("class/" + sc["class"])
@@ -516,7 +775,8 @@ def main(tier, seed):
                 "kind/keepalive-client", "keepalive_responses_on_reused_connection", "keepalive_connection_across_hup_checks",
                 "kind/large-pool", "reloads_of_a_large_pool_completed", "kind/hup-while-forking",
                 "hup_while_previous_reload_forks_checks", "kind/relative-conf-chdir", "relative_conf_with_chdir_reload_checks",
-                "kind/gthread-queued")
+                "kind/gthread-queued", "kind/pool-full", "pool_full_at_hup_checks", "pool_full_at_hup/eventlet",
+                "pool_full_at_hup/gevent", "pool_full_at_hup/gthread", "pool_full_entered_requests_answered_by_old_worker")
     shards = [{"scenario": sc, "seed": seed, "tier": tier} for sc in scenarios(tier, seed)]
     run.assumptions = [
         "for non-sync workers a connection closed with zero response bytes is the accepted-but-not-yet-read case the statement does not cover: "
@@ -527,6 +787,9 @@ def main(tier, seed):
         "race (connection closed while the request travelled) and is only counted",
         "relative-conf-chdir: the server is started as `gunicorn -c gunicorn.conf.py` (or with no -c: ./gunicorn.conf.py) in its scratch "
         "directory and the file sets `chdir` to a sub-directory from which that relative name does not resolve; judged like every other reload",
+        "pool-full: 'the worker has started reading a request' is established by the application's own log (it was entered for the request "
+        "before the HUP); the requests are held at a gate until the old worker no longer has the listening socket open plus 1-2 s, "
+        "then released; clients that had only connected behind the full pool are counted, not judged",
         "hooks in the configuration file that take time (pre_fork 0.4 s, worker_exit 0-15 ms depending on the pid) are part of the "
         "environment: they widen windows, they do not change what the master has to do",
     ]
@@ -539,7 +802,7 @@ def replay(path):
     with open(path) as f:
         rec = json.load(f)
     run = Run(PROP, "quick", 0, "exploration", RULE)
-    v, reason, info = run_scenario(run, e4, rec["case"])
+    v, reason, info = run_any(run, e4, rec["case"])
     print("info:", info, "inconclusive:", reason)
     for mech, s in v:
         print("VIOLATION property=%s replay=%s\n  %s %s" % (PROP, path, mech, s))
